@@ -711,6 +711,8 @@ def gen_c05(tier, seed):
     add("h_u8x2_none_long", "quick", "U8x2", "None", 4, 5, 2, 3, (0, 1, 4, 3), ("Convolution", "Bilinear"), ("long", 4))
     # vertical-only into a cropped view
     add("v_u8_sse4_cropped", "quick", "U8", "Sse4_1", 3, 4, 3, 2, None, ("Convolution", "Bilinear"), ("cropped", 5, 4, 1, 1))
+    # horizontal-only SIMD into a cropped view that is not flush with the parent's bottom, 5 rows
+    add("h_u8_sse4_cropped_5rows", "quick", "U8", "Sse4_1", 3, 6, 2, 5, (0, 1, 3, 5), ("Convolution", "Bilinear"), ("cropped", 4, 7, 1, 1), mem=14)
     # 16-bit two-pass, exact buffer
     add("conv2_u16_none_exact", "quick", "U16", "None", 3, 3, 2, 2, None, ("Convolution", "Bilinear"), ("exact",))
     write = finish_p("C05", insts)
@@ -718,13 +720,12 @@ def gen_c05(tier, seed):
 
 
 def gen_c06(tier, seed):
-    """Instances of c06::run_case.  One symbolic pixel at a symbolic position; alpha axis of the
-    16-bit divide is sliced (a 65536-entry table with a symbolic index did not finish whole)."""
+    """Instances of c06::run_case.  One symbolic pixel at an enumerated position; the alpha axis
+    of the 16-bit portable divide is sliced (65536-entry table with a symbolic index)."""
     chunk = {("U8x4", "Sse4_1"): 4, ("U8x4", "Avx2"): 8, ("U8x2", "Sse4_1"): 8, ("U8x2", "Avx2"): 16,
              ("U16x2", "Sse4_1"): 4, ("U16x2", "Avx2"): 8, ("U16x4", "Sse4_1"): 2, ("U16x4", "Avx2"): 4}
     lines = []
     rnd = random.Random(4242 + seed)
-    n_inst = 0
     slices_quick = [0, 1, 255] + sorted(rnd.sample(range(2, 255), 2))
     for P in ("U8x2", "U8x4", "U16x2", "U16x4"):
         N = PIX[P][1]
@@ -732,39 +733,43 @@ def gen_c06(tier, seed):
         mx = PIX[P][2]
         for cpu in CPUS:
             K = 2 if cpu == "None" else chunk[(P, cpu)] + 1
+            positions = list(range(K))
+            qpos = {0, K - 1} if cpu == "None" else {0, K - 2, K - 1}   # first lane, last lane of the chunk, remainder
             for op in ("MulInplace", "Mul", "DivInplace", "Div"):
-                quick_op = op in ("MulInplace", "Div") if cpu != "None" else True
                 is_div = op.startswith("Div")
-                if wide and is_div:
+                for pos in positions:
                     if cpu == "None":
-                        sl = range(256) if tier == "thorough" else slices_quick
-                        if op == "Div" and tier != "thorough":
-                            sl = [0]
+                        quick = op in ("MulInplace", "Div") or pos == 0
                     else:
-                        # SIMD divide has no table: try a few wide slices
-                        sl = [(0, 65535)] if tier == "thorough" else [(0, 255), (65280, 65535)]
-                    for k in sl:
-                        lo, hi = (k * 256, k * 256 + 255) if isinstance(k, int) else k
-                        name = "c06_%s_%s_%s_a%d_%d" % (P.lower(), cpu.lower(), op.lower(), lo, hi)
-                        tr = "quick" if (isinstance(k, int) and k in slices_quick and quick_op) or (not isinstance(k, int) and tier != "thorough" and quick_op) else "thorough"
-                        lines.append((name, tr, P, K, N, cpu, op, lo, hi))
-                else:
-                    name = "c06_%s_%s_%s" % (P.lower(), cpu.lower(), op.lower())
-                    tr = "quick" if quick_op else "thorough"
-                    lines.append((name, tr, P, K, N, cpu, op, 0, mx))
+                        quick = op in ("MulInplace", "Div") and pos in (0, K - 1)
+                    if wide and is_div and cpu == "None":
+                        if op == "DivInplace" and pos == 0:
+                            sl = list(range(256)) if tier == "thorough" else slices_quick
+                        else:
+                            sl = slices_quick[:2] if pos == 0 else [0]
+                        for k in sl:
+                            lo, hi = k * 256, k * 256 + 255
+                            q = quick and k in slices_quick and (op == "DivInplace" or k == 0)
+                            lines.append(("c06_%s_none_%s_i%d_a%d" % (P.lower(), op.lower(), pos, lo), "quick" if q else "thorough", P, K, N, cpu, op, pos, lo, hi))
+                    elif wide and is_div:
+                        for lo, hi in ((0, 255), (256, 65535)):
+                            lines.append(("c06_%s_%s_%s_i%d_a%d" % (P.lower(), cpu.lower(), op.lower(), pos, lo), "quick" if quick and lo == 0 else "thorough", P, K, N, cpu, op, pos, lo, hi))
+                    else:
+                        lines.append(("c06_%s_%s_%s_i%d" % (P.lower(), cpu.lower(), op.lower(), pos), "quick" if quick else "thorough", P, K, N, cpu, op, pos, 0, mx))
     src = ["//! generated by gen/pregen.py -- do not edit, not committed", "#![allow(unused_imports)]",
            "use crate::c06::*;", "use fast_image_resize::pixels::*;", "use fast_image_resize::CpuExtensions;", ""]
-    for (name, tr, P, K, N, cpu, op, lo, hi) in lines:
+    n_inst = 0
+    for (name, tr, P, K, N, cpu, op, pos, lo, hi) in lines:
         if tier != "thorough" and tr != "quick":
             continue
         n_inst += 1
-        enc = "MulDiv::%s_typed::<%s> -> AlphaMulDiv impl, alpha::%s::{%s} kernels (%s), alpha::common::{mul_div_*, div_and_clip*, RECIP_ALPHA*}" % (
+        enc = "MulDiv::%s_typed::<%s> -> AlphaMulDiv impl, alpha::%s::{%s} kernels, alpha::common::{mul_div_*, div_and_clip*, RECIP_ALPHA*}" % (
             {"MulInplace": "multiply_alpha_inplace", "Mul": "multiply_alpha", "DivInplace": "divide_alpha_inplace", "Div": "divide_alpha"}[op],
-            P, P.lower(), "native" if cpu == "None" else cpu.lower(), cpu)
-        bnd = "symbolic: one pixel (all %d components, alpha in %d..=%d) at a symbolic position of a 1x%d row; other pixels fixed; enumerated: %s %s %s; unwind %d" % (
-            N, lo, hi, K, P, cpu, op, K * N + 2)
-        src.append("// @h %s | prop=C06 | tier=%s | t=1500 | mem=10 | flags=stub --no-assertion-reach-checks | enc=%s | bounds=%s | assume=x86 intrinsic models (x86_model.rs, differential-tested)" % (name, tr, enc, bnd))
-        src.append("c06!(%s, %s, %d, %d, %s, %s, %d, %d, %d);" % (name, P, K, N, cpu, op, lo, hi, K * N + 2))
+            P, P.lower(), "native" if cpu == "None" else cpu.lower())
+        bnd = "symbolic: all %d components of pixel %d of a 1x%d row (alpha in %d..=%d), other pixels fixed; enumerated: %s %s %s position %d; unwind %d" % (
+            N, pos, K, lo, hi, P, cpu, op, pos, K * N + 2)
+        src.append("// @h %s | prop=C06 | tier=%s | t=1800 | mem=4 | flags=stub --no-assertion-reach-checks | enc=%s | bounds=%s | assume=x86 intrinsic models (x86_model.rs, differential-tested)" % (name, tr, enc, bnd))
+        src.append("c06!(%s, %s, %d, %d, %s, %s, %d, %d, %d, %d);" % (name, P, K, N, cpu, op, pos, lo, hi, K * N + 2))
     (KH / "src" / "gen_c06.rs").write_text("\n".join(src) + "\n")
     return {"instances": n_inst, "alpha_slices_quick_16bit_divide": slices_quick}
 
@@ -813,6 +818,9 @@ def gen_c12(tier, seed):
     p_add(insts, "C12", "width_same_u8", "quick", "U8", "None", 3, 4, 3, 2, None, ("Convolution", "Bilinear"))
     # SuperSampling whose nearest-neighbour intermediate happens to have the destination size
     p_add(insts, "C12", "ss_intermediate_is_dst_u8", "quick", "U8", "None", 4, 4, 2, 2, None, ("SuperSampling", "Box", 1), expect="nearest")
+    # SuperSampling whose nearest-neighbour intermediate happens to have the destination size
+    p_add(insts, "C12", "ss_intermediate_is_dst_u8", "quick", "U8", "None", 4, 4, 2, 2, None, ("SuperSampling", "Box", 1), expect="nearest")
+    p_add(insts, "C12", "ss_width_same_u8", "quick", "U8", "None", 2, 6, 2, 2, None, ("SuperSampling", "Box", 1))
     p_add(insts, "C12", "height_same_u16_crop", "quick", "U16", "None", 5, 4, 2, 2, (1, 1, 4, 2), ("Interpolation", "Bilinear"))
     if tier == "thorough":
         k = 0
@@ -841,8 +849,33 @@ def gen_c13(tier, seed):
         p_add(insts, "C13", "src_cropped_u16_avx2", "thorough", "U16", "Avx2", 4, 3, 2, 2, (0.5, 0, 3, 3), C, ("cropped", 4, 4, 1, 2), src=("cropped", 6, 4, 2, 1))
         p_add(insts, "C13", "src_owned_u8x2", "thorough", "U8x2", "Sse4_1", 4, 3, 2, 2, None, C, ("exact",), src=("owned",))
         p_add(insts, "C13", "src_cropped_u16x4_nearest", "thorough", "U16x4", "None", 3, 3, 4, 2, (0.5, 0.5, 2, 2), ("Nearest",), ("exact",), src=("cropped", 4, 5, 1, 2))
-    finish_p("C13", insts)
-    return {"instances": len(insts)}
+    rel = """// @h c13_rel_nearest_view_vs_owned | prop=C13 | tier=quick | t=1200 | mem=8 | flags=stub --no-assertion-reach-checks --no-memory-safety-checks --no-overflow-checks | enc=Resizer::resize_typed x2 -> resample_nearest, ImageView::iter_rows_with_step (default impl for TypedCroppedImage, specialisation for TypedImageRef) | bounds=symbolic: all 6 parent pixels (U8) and both destinations; enumerated: view 1x4 at (0,1) of a 1x6 parent vs an owned copy of the same region, Nearest to 1x7 (a destination centre falls exactly on a source row boundary); unwind 9 | assume=none
+x86_proof! {
+    #[kani::unwind(9)]
+    pub fn c13_rel_nearest_view_vs_owned() {
+        let parent: [u8; 6] = kani::any();
+        let region: [u8; 4] = extract_region(&parent, 1, 1, 0, 1, 1, 4);
+        let mut da: [u8; 7] = kani::any();
+        let mut db: [u8; 7] = kani::any();
+        let opts = ResizeOptions::new().resize_alg(ResizeAlg::Nearest);
+        let mut rz = new_resizer(CpuExtensions::None);
+        assert!(run_resize::<U8>(&mut rz, &region, 1, 4, &mut da, 1, 7, &opts), "P: a valid resize returns Ok");
+        {
+            let pimg = TypedImageRef::<U8>::new(1, 6, as_pixels::<U8>(&parent)).unwrap();
+            let view = TypedCroppedImage::from_ref(&pimg, 0, 1, 1, 4).unwrap();
+            let mut dimg = TypedImage::<U8>::from_pixels_slice(1, 7, as_pixels_mut::<U8>(&mut db)).unwrap();
+            assert!(rz.resize_typed(&view, &mut dimg, &opts).is_ok(), "P: a valid resize returns Ok");
+        }
+        let mut i = 0;
+        while i < 7 {
+            assert!(da[i] == db[i], "C13: a cropped view and an owned copy of the same region give identical destination pixels");
+            i += 1;
+        }
+    }
+}
+"""
+    finish_p("C13", insts, extra_src=rel)
+    return {"instances": len(insts) + 1}
 
 
 def gen_c03(tier, seed):
